@@ -2,6 +2,7 @@
    Property theorems only; proofs live in Proofs/{Performables,Outcome}Proofs.v. *)
 From Verif Require Import Base.Util Model.Types Model.Outcome Model.Validate Model.OutcomeCase
   Proofs.PerformablesProofs Proofs.OutcomeProofs Gen.Generated.
+From Verif Require Model.Uid Proofs.UidProofs.
 Open Scope N_scope.
 
 (* What the vote table holds after ANY list of observations (any number of oracles, any content):
@@ -67,6 +68,22 @@ Proof.
   split; [discriminate|]. split; [reflexivity|]. split; [vm_compute; left; reflexivity | vm_compute; lia].
 Qed.
 Print Assumptions C01_identical_refuted.
+
+(* ... and the real digest IS non-injective: byte-exact model of CheckResult.UniqueID() (tied to the
+   real function by its own correspondence table), two pairs of field-distinct, validation-shaped
+   results with one digest: delimiter shifting (0x09 inside PerformData vs FastGasWei), and the int64
+   cast of GasAllocated (1 vs 2^64-1). *)
+Theorem C01_uid_bytes_not_injective_refuted :
+  exists a b, Uid.bres_valid_shape a = true /\ Uid.bres_valid_shape b = true /\
+              Uid.bres_eqb a b = false /\ Uid.uid_bytes a = Uid.uid_bytes b.
+Proof. exact UidProofs.uid_bytes_not_injective. Qed.
+Print Assumptions C01_uid_bytes_not_injective_refuted.
+
+Theorem C01_uid_bytes_gas_cast_refuted :
+  exists a b, Uid.bres_valid_shape a = true /\ Uid.bres_valid_shape b = true /\
+              Uid.bres_eqb a b = false /\ Uid.uid_bytes a = Uid.uid_bytes b.
+Proof. exact UidProofs.uid_bytes_not_injective_gas. Qed.
+Print Assumptions C01_uid_bytes_gas_cast_refuted.
 
 (* The boolean checker applied to the implementation's observed outcome decides the spec. *)
 Theorem C01_checker_sound :
